@@ -21,6 +21,7 @@ pub mod c14;
 pub mod c15;
 pub mod c16;
 pub mod c17;
+pub mod c18;
 pub mod c19;
 pub mod c20;
 pub mod util;
@@ -87,7 +88,7 @@ pub trait Scenario: Sync {
 }
 
 pub fn registry() -> Vec<&'static dyn Scenario> {
-    vec![&c01::C01, &c02::C02, &c03::C03, &c04::C04, &c05::C05, &c06::C06, &c07::C07, &c08::C08, &c09::C09, &c10::C10, &c11::C11, &c12::C12, &c13::C13, &c14::C14, &c15::C15, &c16::C16, &c17::C17, &c19::C19, &c20::C20]
+    vec![&c01::C01, &c02::C02, &c03::C03, &c04::C04, &c05::C05, &c06::C06, &c07::C07, &c08::C08, &c09::C09, &c10::C10, &c11::C11, &c12::C12, &c13::C13, &c14::C14, &c15::C15, &c16::C16, &c17::C17, &c18::C18, &c19::C19, &c20::C20]
 }
 pub fn lookup(id: &str) -> Option<&'static dyn Scenario> {
     registry().into_iter().find(|s| s.id().eq_ignore_ascii_case(id))
@@ -188,6 +189,7 @@ pub fn config_from(v: &Value) -> Config {
     if let Some(m) = v["max_steps"].as_u64() {
         c.max_steps = m;
     }
+    c.canary = v["canary"].as_bool().unwrap_or(false);
     c
 }
 /// Environment faults that are legal for any program: it closes its stdin at some point, and it
